@@ -684,7 +684,7 @@ func (g *gen) multiCase() {
 }
 
 func (g *gen) extCases(tier string) {
-	nRound, nText, nMulti := 1000, 1000, 500
+	nRound, nText, nMulti := 800, 800, 400
 	if tier == "thorough" {
 		nRound, nText, nMulti = 12000, 12000, 5000
 	}
